@@ -228,7 +228,8 @@ theorem matchBytes_post (d : Bytes) (pos : Int) (key : Bytes) :
     exact ⟨hl, fun _ => rfl, fun h => (by cases h)⟩
 
 theorem jumpTo_post (d : Bytes) (pos : Int) (key : Bytes) (hk : key ≠ []) :
-    Post (jumpTo d pos key) (fun _ p => pos < blen d ∧ pos ≤ p ∧ 0 ≤ p ∧ p < blen d) := by
+    Post (jumpTo d pos key) (fun _ p => pos < blen d ∧ pos ≤ p ∧ 0 ≤ p ∧ p < blen d ∧
+      pos + key.length - 1 ≤ p ∧ (key.length : Int) - 1 ≤ p) := by
   unfold jumpTo
   apply Post_bind _ _ _ _ (getPosition_post d pos)
   intro q p ⟨hp, hl, h1, h2⟩
@@ -238,11 +239,30 @@ theorem jumpTo_post (d : Bytes) (pos : Int) (key : Bytes) (hk : key ≠ []) :
     have hkl : key.length ≥ 1 := List.length_pos_iff.mpr hk
     apply Post_ok
     simp only [blen] at *
-    refine ⟨hl, ?_, by omega, by omega⟩
     by_cases h0 : 0 ≤ pos
-    · have := h1 h0; subst this; simp at hs; omega
-    · omega
+    · have := h1 h0; subst this; simp at hs
+      refine ⟨hl, ?_, ?_, ?_, ?_, ?_⟩ <;> omega
+    · refine ⟨hl, ?_, ?_, ?_, ?_, ?_⟩ <;> omega
   · exact Post_stop _
+
+theorem subPosition_post (d : Bytes) (pos : Int) (n : Nat) :
+    Post (subPosition d pos n) (fun _ p => 0 ≤ pos ∧ pos < blen d ∧ p = pos - n) := by
+  unfold subPosition
+  apply Post_bind _ _ _ _ (getPosition_post d pos)
+  intro q p ⟨hp, hl, h1, h2⟩
+  cases q with
+  | none => exact Post_err _ _ rfl
+  | some q =>
+    have h0 : 0 ≤ pos := by
+      by_cases h : pos < 0
+      · have := h2 h; simp at this
+      · omega
+    have hq := h1 h0
+    injection hq with hq
+    apply Post_mono _ _ _ (setPosition_post d pos _)
+    intro _ p' ⟨e, _⟩
+    refine ⟨h0, hl, ?_⟩
+    rw [e, hq]; omega
 
 theorem attrValueUnquoted_post (name value rest : Bytes) (p : Nat) :
     Post (attrValueUnquoted name value rest p)
@@ -442,7 +462,7 @@ theorem getAttribute_post (d : Bytes) (pos : Int) :
         · exact absurd h h62
       · omega
 
-/-! ### no out-of-fuel error from the fuel-free ContentAttrParser -/
+/-! ### no out-of-fuel error from ContentAttrParser -/
 
 def PostT {α : Type} (r : R α) : Prop := Post r (fun _ _ => True)
 
@@ -460,6 +480,27 @@ theorem jumpTo_T (d : Bytes) (pos : Int) (key : Bytes) : PostT (jumpTo d pos key
   · exact Post_ok _ _ _ trivial
   · exact Post_stop _
 
+/-- the search loop of ContentAttrParser: every iteration moves the position at least 7 bytes on -/
+theorem contentCharsetLoop_post (d : Bytes) (f : Nat) (pos : Int) (hlo : -1 ≤ pos) (hf1 : f ≥ 1)
+    (hf : (f : Int) + pos > blen d) : PostT (contentCharsetLoop d f pos) := by
+  induction f generalizing pos with
+  | zero => omega
+  | succ k ih =>
+    unfold contentCharsetLoop
+    apply Post_bind _ _ _ _ (jumpTo_post d pos (litB "charset") (by decide))
+    intro _ p1 ⟨_, _, _, hp1l, hk1, hk2⟩
+    have hlen : ((litB "charset").length : Int) = 7 := by decide
+    rw [hlen] at hk1 hk2
+    apply Post_bind _ _ _ _ (addPosition_post d p1 1)
+    intro _ p2 ⟨_, _, e2⟩
+    apply Post_bind _ _ _ _ (skip_post d p2 spaceBytes)
+    intro _ p3 ⟨_, hp2l, h23, h3l, _⟩
+    apply Post_bind _ _ _ _ (currentByte_post d p3)
+    intro c p4 ⟨e4, _, hp3l, _⟩
+    split
+    · exact Post_ok _ _ _ trivial
+    · exact ih p4 (by omega) (by omega) (by omega)
+
 theorem contentAttrParse_nofuel (d : Bytes) (e : PyErr) (h : contentAttrParse d = .error e) : isFuel e = false := by
   unfold contentAttrParse at h
   simp only at h
@@ -470,12 +511,7 @@ theorem contentAttrParse_nofuel (d : Bytes) (e : PyErr) (h : contentAttrParse d 
     injection h with h
     subst h
     have key : PostT
-        ((jumpTo d (-1) (litB "charset")).bind fun _ p =>
-          (addPosition d p 1).bind fun _ p =>
-          (skip d p spaceBytes).bind fun _ p =>
-          (currentByte d p).bind fun c p =>
-          if c ≠ some 61 then R.ok none p
-          else
+        ((contentCharsetLoop d (d.length + 2) (-1)).bind fun _ p =>
           (addPosition d p 1).bind fun _ p =>
           (skip d p spaceBytes).bind fun _ p =>
           (currentByte d p).bind fun c p =>
@@ -493,7 +529,7 @@ theorem contentAttrParse_nofuel (d : Bytes) (e : PyErr) (h : contentAttrParse d 
             match oldPosition with
             | none => R.err (.typeError "ContentAttrParser: slice with None")
             | some a =>
-              match skipUntil d p spaceBytes with
+              match skipUntil d p (spaceBytes ++ [59]) with
               | .ok _ p' =>
                 match getPosition d p' with
                 | .ok (some b) p'' => R.ok (some ((d.drop a).take (b - a))) p''
@@ -502,80 +538,75 @@ theorem contentAttrParse_nofuel (d : Bytes) (e : PyErr) (h : contentAttrParse d 
                 | .err e => R.err e
               | .stop => R.ok (some (d.drop a)) p
               | .err e => R.err e) := by
-      apply PostT_bind _ _ (jumpTo_T _ _ _); intro _ p
+      apply PostT_bind _ _ (contentCharsetLoop_post d _ (-1) (by omega) (by omega) (by simp only [blen]; omega)); intro _ p
       apply PostT_bind _ _ (PostT_of (addPosition_post _ _ _)); intro _ p
       apply PostT_bind _ _ (PostT_of (skip_post _ _ _)); intro _ p
       apply PostT_bind _ _ (PostT_of (currentByte_post _ _)); intro c p
       split
-      · exact Post_ok _ _ _ trivial
-      · apply PostT_bind _ _ (PostT_of (addPosition_post _ _ _)); intro _ p
-        apply PostT_bind _ _ (PostT_of (skip_post _ _ _)); intro _ p
-        apply PostT_bind _ _ (PostT_of (currentByte_post _ _)); intro c p
+      · simp only
+        apply PostT_bind _ _ (PostT_of (addPosition_post _ _ _)); intro _ p
+        apply PostT_bind _ _ (PostT_of (getPosition_post _ _)); intro o p
+        apply PostT_bind _ _ (jumpTo_T _ _ _); intro _ p
+        apply PostT_bind _ _ (PostT_of (getPosition_post _ _)); intro n p
         split
-        · simp only
-          apply PostT_bind _ _ (PostT_of (addPosition_post _ _ _)); intro _ p
-          apply PostT_bind _ _ (PostT_of (getPosition_post _ _)); intro o p
-          apply PostT_bind _ _ (jumpTo_T _ _ _); intro _ p
-          apply PostT_bind _ _ (PostT_of (getPosition_post _ _)); intro n p
-          split
-          · exact Post_ok _ _ _ trivial
-          · exact Post_err _ _ rfl
-        · apply PostT_bind _ _ (PostT_of (getPosition_post _ _)); intro o p
-          split
-          · exact Post_err _ _ rfl
+        · exact Post_ok _ _ _ trivial
+        · exact Post_err _ _ rfl
+      · apply PostT_bind _ _ (PostT_of (getPosition_post _ _)); intro o p
+        split
+        · exact Post_err _ _ rfl
+        · split
           · split
-            · split
-              · exact Post_ok _ _ _ trivial
-              · exact Post_err _ _ rfl
-              · exact Post_ok _ _ _ trivial
-              · exact Post_err _ _ (by apply (getPosition_post d _).1; assumption)
             · exact Post_ok _ _ _ trivial
-            · exact Post_err _ _ (by apply (skipUntil_post d _ spaceBytes).1; assumption)
+            · exact Post_err _ _ rfl
+            · exact Post_ok _ _ _ trivial
+            · exact Post_err _ _ (by apply (getPosition_post d _).1; assumption)
+          · exact Post_ok _ _ _ trivial
+          · exact Post_err _ _ (by apply (skipUntil_post d _ (spaceBytes ++ [59])).1; assumption)
     exact key.1 e' hr
 
 /-! ### the fuelled loops -/
 
-theorem handleMetaLoop_post (d : Bytes) (f : Nat) (hasPragma : Bool) (pending : Option Str) (pos : Int)
+theorem handleMetaLoop_post (d : Bytes) (f : Nat) (st : MetaSt) (pos : Int)
     (h0 : 0 ≤ pos) (hf1 : f ≥ 1) (hf : (f : Int) + pos > blen d) :
-    Post (handleMetaLoop d f hasPragma pending pos) (fun _ p' => pos ≤ p' ∧ p' ≤ blen d) := by
-  induction f generalizing hasPragma pending pos with
+    Post (handleMetaLoop d f st pos) (fun _ p' => pos ≤ p' ∧ p' ≤ blen d) := by
+  induction f generalizing st pos with
   | zero => omega
   | succ k ih =>
     unfold handleMetaLoop
     apply Post_bind _ _ _ _ (getAttribute_post d pos)
     intro attr p ⟨_, hp1, hp2, hsome⟩
     cases attr with
-    | none => apply Post_ok; exact ⟨hp1, hp2⟩
+    | none =>
+      apply Post_bind _ _ _ _ (currentByte_post d p)
+      intro c p' ⟨e, _, _, _⟩
+      subst e
+      split <;> (apply Post_ok; exact ⟨hp1, hp2⟩)
     | some nv =>
       obtain ⟨name, value⟩ := nv
       obtain ⟨hlt, hpl⟩ := hsome rfl
       have hk1 : k ≥ 1 := by omega
       have hk : (k : Int) + p > blen d := by omega
       have hp0 : 0 ≤ p := by omega
-      have recur : ∀ hp' pend', Post (handleMetaLoop d k hp' pend' p) (fun _ p' => pos ≤ p' ∧ p' ≤ blen d) := by
-        intro hp' pend'
-        apply Post_mono _ _ _ (ih hp' pend' p hp0 hk1 hk)
+      have recur : ∀ st', Post (handleMetaLoop d k st' p) (fun _ p' => pos ≤ p' ∧ p' ≤ blen d) := by
+        intro st'
+        apply Post_mono _ _ _ (ih st' p hp0 hk1 hk)
         intro _ p' ⟨a, b⟩; exact ⟨by omega, b⟩
       simp only
       split
+      · exact recur _
       · split
-        · apply Post_ok; exact ⟨by omega, by omega⟩
-        · exact recur _ _
-      · split
+        · exact recur _
         · split
-          · apply Post_ok; exact ⟨by omega, by omega⟩
-          · exact recur _ _
-        · split
+          · exact recur _
           · split
-            · rename_i e he
-              exact Post_err _ _ (contentAttrParse_nofuel _ e he)
-            · exact recur _ _
             · split
-              · exact recur _ _
+              · rename_i e he
+                exact Post_err _ _ (contentAttrParse_nofuel _ e he)
+              · exact recur _
               · split
-                · apply Post_ok; exact ⟨by omega, by omega⟩
-                · exact recur _ _
-          · exact recur _ _
+                · exact recur _
+                · split <;> exact recur _
+            · exact recur _
 
 theorem readAllAttributes_post (d : Bytes) (f : Nat) (pos : Int)
     (h0 : 0 ≤ pos) (hf1 : f ≥ 1) (hf : (f : Int) + pos > blen d) :
@@ -593,26 +624,11 @@ theorem readAllAttributes_post (d : Bytes) (f : Nat) (pos : Int)
       apply Post_mono _ _ _ (ih p (by omega) (by omega) (by omega))
       intro _ p' ⟨a, b⟩; exact ⟨by omega, b⟩
 
-theorem handleMeta_post (d : Bytes) (pos : Int) :
-    Post (handleMeta d pos) (fun _ p' => 0 ≤ pos ∧ pos ≤ p' ∧ p' ≤ blen d) := by
-  unfold handleMeta
-  apply Post_bind _ _ _ _ (currentByte_post d pos)
-  intro c p ⟨e, h0, hl, _⟩
-  subst e
-  cases c with
-  | none => apply Post_ok; exact ⟨h0, by omega, by omega⟩
-  | some c =>
-    simp only
-    split
-    · apply Post_ok; exact ⟨h0, by omega, by omega⟩
-    · apply Post_mono _ _ _ (handleMetaLoop_post d (d.length + 2) false none p h0 (by omega) (by simp only [blen]; omega))
-      intro _ p' ⟨a, b⟩; exact ⟨h0, a, b⟩
-
 theorem handleOther_post (d : Bytes) (pos : Int) :
     Post (handleOther d pos) (fun _ p' => pos ≤ p' ∧ 0 ≤ p' ∧ p' < blen d) := by
   unfold handleOther
   apply Post_mono _ _ _ (jumpTo_post d pos [62] (by simp))
-  intro _ p' ⟨_, a, b, c⟩; exact ⟨a, b, c⟩
+  intro _ p' ⟨_, a, b, c, _⟩; exact ⟨a, b, c⟩
 
 theorem handlePossibleTag_post (d : Bytes) (endTag : Bool) (pos : Int) :
     Post (handlePossibleTag d endTag pos) (fun _ p' => 0 ≤ pos ∧ pos - 1 ≤ p' ∧ p' ≤ blen d) := by
@@ -627,24 +643,43 @@ theorem handlePossibleTag_post (d : Bytes) (endTag : Bool) (pos : Int) :
       apply Post_bind _ _ _ _ (handleOther_post d p1)
       intro _ p2 ⟨a, b, c⟩
       apply Post_ok; exact ⟨h0, by omega, by omega⟩
-    · apply Post_ok; exact ⟨h0, by omega, by omega⟩
-  · apply Post_bind _ _ _ _ (skipUntil_post d p spacesAngleBrackets)
-    intro c' q ⟨_, _, hq1, hq2, _⟩
-    split
-    · apply Post_bind _ _ _ _ (previous_post d q)
-      intro _ q1 ⟨e1, _, _⟩
+    · apply Post_bind _ _ _ _ (previous_post d p)
+      intro _ p1 ⟨e1, _, _⟩
       apply Post_ok; exact ⟨h0, by omega, by omega⟩
-    · apply Post_bind _ _ _ _ (readAllAttributes_post d (d.length + 2) q (by omega) (by omega) (by simp only [blen]; omega))
-      intro _ p2 ⟨a, b⟩
-      apply Post_ok; exact ⟨h0, by omega, b⟩
+  · apply Post_bind _ _ _ _ (skipUntil_post d p spacesClosingBracket)
+    intro c' q ⟨_, _, hq1, hq2, _⟩
+    apply Post_bind _ _ _ _ (readAllAttributes_post d (d.length + 2) q (by omega) (by omega) (by simp only [blen]; omega))
+    intro _ p2 ⟨a, b⟩
+    apply Post_ok; exact ⟨h0, by omega, b⟩
 
-theorem dispatchRow_post (d : Bytes) (pos : Int) (key : Bytes) (handler : String) (hk : key ≠ []) (h0 : 0 ≤ pos) :
+theorem handleMeta_post (d : Bytes) (pos : Int) :
+    Post (handleMeta d pos) (fun _ p' => 0 ≤ pos ∧ pos - 5 ≤ p' ∧ p' ≤ blen d) := by
+  unfold handleMeta
+  apply Post_bind _ _ _ _ (currentByte_post d pos)
+  intro c p ⟨e, h0, hl, _⟩
+  subst e
+  split
+  · apply Post_bind _ _ _ _ (subPosition_post d p 4)
+    intro _ p1 ⟨_, _, e1⟩
+    apply Post_bind _ _ _ _ (handlePossibleTag_post d false p1)
+    intro _ p2 ⟨_, a, b⟩
+    apply Post_ok; exact ⟨h0, by omega, b⟩
+  · apply Post_mono _ _ _ (handleMetaLoop_post d (d.length + 2) {} p h0 (by omega) (by simp only [blen]; omega))
+    intro _ p' ⟨a, b⟩; exact ⟨h0, by omega, b⟩
+
+/-- what the dispatch table must satisfy for the position bounds: non-empty keys, and the handlers that step back
+(`handleMeta` by up to 5, `handleComment` by 2) sit behind keys at least that long -/
+def RowOk (kh : Bytes × String) : Prop :=
+  kh.1 ≠ [] ∧ (kh.2 = "handleMeta" → kh.1.length ≥ 5) ∧ (kh.2 = "handleComment" → kh.1.length ≥ 2)
+
+theorem dispatchRow_post (d : Bytes) (pos : Int) (key : Bytes) (handler : String) (hk : RowOk (key, handler))
+    (h0 : 0 ≤ pos) :
     Post (dispatchRow d pos key handler)
       (fun r p' => pos < blen d ∧ pos ≤ p' ∧ p' ≤ blen d ∧ (r = none → p' = pos)) := by
   unfold dispatchRow
   apply Post_bind _ _ _ _ (matchBytes_post d pos key)
   intro m p ⟨hl, hm0, hm1⟩
-  have hkl : key.length ≥ 1 := List.length_pos_iff.mpr hk
+  have hkl : key.length ≥ 1 := List.length_pos_iff.mpr hk.1
   cases m with
   | false =>
     have := hm0 rfl
@@ -653,37 +688,43 @@ theorem dispatchRow_post (d : Bytes) (pos : Int) (key : Bytes) (handler : String
     obtain ⟨_, hp, hpl⟩ := hm1 rfl
     simp only [Bool.not_true, Bool.false_eq_true, if_false]
     have inner : Post
-        (if handler = "handleComment" then (jumpTo d p (litB "-->")).bind fun b p => R.ok (b, (none : Option Str)) p
+        (if handler = "handleComment" then
+           (subPosition d p 2).bind fun _ p => (jumpTo d p (litB "-->")).bind fun b p => R.ok (b, (none : Option Str)) p
          else if handler = "handleMeta" then handleMeta d p
          else if handler = "handlePossibleEndTag" then
-           (next d p).bind fun _ p => (handlePossibleTag d true p).bind fun b p => R.ok (b, none) p
+           (handlePossibleTag d true p).bind fun b p => R.ok (b, none) p
          else if handler = "handleOther" then (handleOther d p).bind fun b p => R.ok (b, none) p
          else if handler = "handlePossibleStartTag" then
            (handlePossibleTag d false p).bind fun b p => R.ok (b, none) p
          else R.err (.keyError "methodDispatch"))
-        (fun _ p' => p - 1 ≤ p' ∧ p' ≤ blen d) := by
+        (fun _ p' => pos ≤ p' ∧ p' ≤ blen d) := by
       split
-      · apply Post_bind _ _ _ _ (jumpTo_post d p _ (by decide))
-        intro _ p2 ⟨_, a, _, c⟩; apply Post_ok; exact ⟨by omega, by omega⟩
+      · rename_i hc
+        have hk2 : key.length ≥ 2 := hk.2.2 hc
+        apply Post_bind _ _ _ _ (subPosition_post d p 2)
+        intro _ p1 ⟨_, _, e1⟩
+        apply Post_bind _ _ _ _ (jumpTo_post d p1 _ (by decide))
+        intro _ p2 ⟨_, a, _, c, _⟩; apply Post_ok; exact ⟨by omega, by omega⟩
       · split
-        · apply Post_mono _ _ _ (handleMeta_post d p)
+        · rename_i hc
+          have hk5 : key.length ≥ 5 := hk.2.1 hc
+          apply Post_mono _ _ _ (handleMeta_post d p)
           intro _ p2 ⟨_, a, b⟩; exact ⟨by omega, b⟩
         · split
-          · apply Post_bind _ _ _ _ (next_post d p)
-            intro _ p1 ⟨e1, _, _⟩
-            apply Post_bind _ _ _ _ (handlePossibleTag_post d true p1)
+          · apply Post_bind _ _ _ _ (handlePossibleTag_post d true p)
             intro _ p2 ⟨_, a, b⟩; apply Post_ok; exact ⟨by omega, b⟩
           · split
             · apply Post_bind _ _ _ _ (handleOther_post d p)
               intro _ p2 ⟨a, _, c⟩; apply Post_ok; exact ⟨by omega, by omega⟩
             · split
               · apply Post_bind _ _ _ _ (handlePossibleTag_post d false p)
-                intro _ p2 ⟨_, a, b⟩; apply Post_ok; exact ⟨a, b⟩
+                intro _ p2 ⟨_, a, b⟩; apply Post_ok; exact ⟨by omega, b⟩
               · exact Post_err _ _ rfl
-    generalize hr : (if handler = "handleComment" then (jumpTo d p (litB "-->")).bind fun b p => R.ok (b, (none : Option Str)) p
+    generalize hr : (if handler = "handleComment" then
+           (subPosition d p 2).bind fun _ p => (jumpTo d p (litB "-->")).bind fun b p => R.ok (b, (none : Option Str)) p
          else if handler = "handleMeta" then handleMeta d p
          else if handler = "handlePossibleEndTag" then
-           (next d p).bind fun _ p => (handlePossibleTag d true p).bind fun b p => R.ok (b, none) p
+           (handlePossibleTag d true p).bind fun b p => R.ok (b, none) p
          else if handler = "handleOther" then (handleOther d p).bind fun b p => R.ok (b, none) p
          else if handler = "handlePossibleStartTag" then
            (handlePossibleTag d false p).bind fun b p => R.ok (b, none) p
@@ -691,11 +732,11 @@ theorem dispatchRow_post (d : Bytes) (pos : Int) (key : Bytes) (handler : String
     cases r with
     | ok v p2 =>
       have := inner.2 v p2 rfl
-      apply Post_ok; exact ⟨hl, by omega, this.2, fun h => by cases h⟩
+      apply Post_ok; exact ⟨hl, this.1, this.2, fun h => by cases h⟩
     | stop => apply Post_ok; exact ⟨hl, by omega, hpl, fun h => by cases h⟩
     | err e => exact Post_err _ _ (inner.1 e rfl)
 
-theorem dispatch_post (d : Bytes) (pos : Int) (rows : List (Bytes × String)) (hk : ∀ kh ∈ rows, kh.1 ≠ [])
+theorem dispatch_post (d : Bytes) (pos : Int) (rows : List (Bytes × String)) (hk : ∀ kh ∈ rows, RowOk kh)
     (h0 : 0 ≤ pos) (hl : pos < blen d) :
     Post (dispatch d pos rows) (fun _ p' => pos ≤ p' ∧ p' ≤ blen d) := by
   induction rows with
@@ -712,7 +753,9 @@ theorem dispatch_post (d : Bytes) (pos : Int) (rows : List (Bytes × String)) (h
       subst this
       exact ih (fun kh hm => hk kh (List.mem_cons_of_mem _ hm))
 
-theorem methodDispatch_keys : ∀ kh ∈ methodDispatch, kh.1 ≠ [] := by decide
+theorem methodDispatch_keys : ∀ kh ∈ methodDispatch, RowOk kh := by
+  unfold RowOk
+  decide
 
 theorem getEncodingLoop_nofuel (d : Bytes) (f : Nat) (pos : Int) (hlo : -1 ≤ pos) (hhi : pos ≤ blen d)
     (hf : (f : Int) + pos ≥ blen d + 1) (e : PyErr) (h : getEncodingLoop d f pos = .error e) : isFuel e = false := by
@@ -735,7 +778,7 @@ theorem getEncodingLoop_nofuel (d : Bytes) (f : Nat) (pos : Int) (hlo : -1 ≤ p
       | ok b p1 =>
         rw [hjx] at h
         simp only at h
-        obtain ⟨_, hp1, hp10, hp1l⟩ := hj.2 b p1 hjx
+        obtain ⟨_, hp1, hp10, hp1l, _⟩ := hj.2 b p1 hjx
         have hd := dispatch_post d p1 methodDispatch methodDispatch_keys hp10 hp1l
         cases hdx : dispatch d p1 methodDispatch with
         | stop => rw [hdx] at h; injection h with h; subst h; rfl
@@ -749,7 +792,7 @@ theorem getEncodingLoop_nofuel (d : Bytes) (f : Nat) (pos : Int) (hlo : -1 ≤ p
           · cases h
           · exact ih p2 (by omega) hp2l (by omega) h
 
-/-- **termination**: with the fuel `len + 2` the model gives to each of its three loops, the prescan never
+/-- **termination**: with the fuel `len + 2` the model gives to each of its loops, the prescan never
 reports "out of fuel" — on any byte string -/
 theorem getEncoding_nofuel (data : Bytes) (e : PyErr) (h : getEncoding data = .error e) : isFuel e = false := by
   unfold getEncoding at h
